@@ -28,6 +28,9 @@ type Offence struct {
 	RawTCP []byte // if set, written to the TCP connection as is (malformed WebSocket framing)
 	// Reaches handler code (is not rejected at the frame level).
 	ReachesHandler bool
+	// CloseAfter: the client closes its connection right after writing the
+	// frames ("fin" or "rst"), without waiting for anything.
+	CloseAfter string
 }
 
 func now() *timestamppb.Timestamp { return d.NewTag() }
@@ -203,6 +206,33 @@ func ByteLevel(r *rand.Rand, n int) []Offence {
 	out = append(out, Offence{Name: "ws/reserved-opcode", RawTCP: []byte{0x83, 0x80, 0, 0, 0, 0}})
 	out = append(out, Offence{Name: "ws/huge-declared-length", RawTCP: []byte{0x82, 0xff, 0x7f, 0xff, 0xff, 0xff, 0xff, 0xff, 0xff, 0xff, 1, 2, 3, 4}})
 	out = append(out, Offence{Name: "ws/garbage", RawTCP: []byte("GET / HTTP/1.1\r\n\r\n")})
+	return out
+}
+
+// Closes returns closes placed right behind a request, while its effects
+// (deferred updates, relays) are still in flight.
+func Closes(c Ctx) []Offence {
+	var out []Offence
+	for _, how := range []string{"fin", "rst"} {
+		out = append(out,
+			Offence{Name: "close/" + how + "-right-after-pose", CloseAfter: how, ReachesHandler: true,
+				Frames: [][]byte{mustMarshal(&hagallpb.EntityUpdatePose{Type: d.TPoseUpdate, Timestamp: now(), EntityId: c.Own, Pose: &hagallpb.Pose{Px: 5}})}},
+			Offence{Name: "close/" + how + "-right-after-comp-update", CloseAfter: how, ReachesHandler: true,
+				Frames: [][]byte{mustMarshal(&hagallpb.EntityComponentUpdate{Type: d.TCompUpdate, Timestamp: now(), EntityComponentTypeId: c.TypeID, EntityId: c.Own, Data: []byte("last")})}},
+			Offence{Name: "close/" + how + "-right-after-entity-add", CloseAfter: how, ReachesHandler: true,
+				Frames: [][]byte{mustMarshal(&hagallpb.EntityAddRequest{Type: d.TEntityAddReq, Timestamp: now(), RequestId: 424242})}},
+			Offence{Name: "close/" + how + "-right-after-custom-x20", CloseAfter: how, ReachesHandler: true,
+				Frames: func() [][]byte {
+					var f [][]byte
+					for i := 0; i < 20; i++ {
+						f = append(f, mustMarshal(&hagallpb.CustomMessage{Type: d.TCustom, Timestamp: now(), Body: make([]byte, 5000)}))
+					}
+					return f
+				}()},
+			Offence{Name: "close/" + how + "-right-after-join-switch", CloseAfter: how, ReachesHandler: true,
+				Frames: [][]byte{mustMarshal(&hagallpb.ParticipantJoinRequest{Type: d.TJoinReq, Timestamp: now(), RequestId: 434343})}},
+		)
+	}
 	return out
 }
 
